@@ -176,6 +176,10 @@ var c18AuthVariants = []c18AuthVariant{
 	{"dup-bad-good", "Proxy-Authorization: Basic eDp5\r\nProxy-Authorization: Basic dTpw\r\n", "either"},
 	{"dup-good-bad", "Proxy-Authorization: Basic dTpw\r\nProxy-Authorization: Basic eDp5\r\n", "either"},
 	{"www-authorization-only", "Authorization: Basic dTpw\r\n", "reject"},
+	// the accepted credential with base64 letters in the other case: different bytes, must be refused
+	{"basic-good-last-letter-upper", "Proxy-Authorization: Basic dTpW\r\n", "reject"},
+	{"basic-good-all-lower", "Proxy-Authorization: Basic dtpw\r\n", "reject"},
+	{"basic-good-all-upper", "Proxy-Authorization: Basic DTPW\r\n", "reject"},
 }
 
 type c18Kind struct {
@@ -201,6 +205,9 @@ type c18Case struct {
 	Zero    bool   `json:"zero_reads,omitempty"`
 	Auth    bool   `json:"auth_configured"`
 	Desc    string `json:"desc,omitempty"`
+	// Warm: another local client has authenticated with the right credentials on its own connection
+	// to the same Server before this connection arrives
+	Warm bool `json:"after_another_connection_authenticated,omitempty"`
 }
 
 func (c *c18Case) header() []byte {
@@ -242,6 +249,13 @@ func c18HTTPRunInner(c *c18Case) (string, string) {
 			return ok
 		}
 	}
+	if c.Warm {
+		w := &c18Case{Kind: 0, Variant: 1, Body: 0, Trunc: -1, Auth: true}
+		s.dispatch(&c18Conn{data: w.stream()})
+		log.mu.Lock()
+		log.ev = nil
+		log.mu.Unlock()
+	}
 	conn := &c18Conn{data: stream, cuts: c.Cuts, zero: c.Zero}
 	s.dispatch(conn)
 	if s.httpClient != nil {
@@ -258,7 +272,7 @@ func c18HTTPRunInner(c *c18Case) (string, string) {
 			accepted = accepted || ev.OK
 			continue
 		}
-		if c.Auth && !accepted {
+		if c.Auth && !accepted && !c.Warm {
 			return "upstream-before-auth", fmt.Sprintf("%s(%s) before any accepted AuthFunc call; events %v", ev.Kind, ev.A, evs)
 		}
 		ups = append(ups, ev)
@@ -275,6 +289,25 @@ func c18HTTPRunInner(c *c18Case) (string, string) {
 			return "client-conn-not-closed", "incomplete header: connection left open"
 		}
 		return "", ""
+	}
+	if c.Warm {
+		// whether AuthFunc is consulted again for credentials it has seen is the server's business;
+		// what counts is that only a request carrying the right credentials is served
+		servedNow := len(ups) > 0 || (status != "407" && status != "")
+		switch v.Expect {
+		case "reject":
+			if servedNow {
+				return "upstream-without-credentials", fmt.Sprintf("variant %s must be rejected also after another connection authenticated; events %v, response %q", v.Name, evs, status)
+			}
+			accepted = false
+		case "accept":
+			if !servedNow {
+				return "good-credentials-not-accepted", fmt.Sprintf("variant %s carries u:p but was not served after another connection authenticated; events %v, response %q", v.Name, evs, status)
+			}
+			accepted = true
+		default:
+			accepted = servedNow
+		}
 	}
 	served := !c.Auth || accepted
 	if c.Auth {
@@ -323,7 +356,7 @@ func c18HTTPRunInner(c *c18Case) (string, string) {
 	}
 	if k.Name == "connect" {
 		hy.mu.Lock()
-		peer := hy.peers[0]
+		peer := hy.peers[len(hy.peers)-1] // (the first one belongs to the warm-up connection, if any)
 		hy.mu.Unlock()
 		got, _ := io.ReadAll(peer)
 		if !bytes.Equal(got, body) {
@@ -419,7 +452,7 @@ func c18HTTPEnumerate(sh *evidence.Shard) {
 	for _, k := range c18Kinds {
 		knames = append(knames, k.Name)
 	}
-	alphabet := map[string]any{"requests": knames, "proxy_authorization": vnames, "pipelined_body_len": []int{0, 1, 5, 9}, "auth": "AuthFunc accepts only u:p; every case also with AuthFunc nil in the whole-stream part"}
+	alphabet := map[string]any{"requests": knames, "proxy_authorization": vnames, "pipelined_body_len": []int{0, 1, 5, 9}, "auth": "AuthFunc accepts only u:p; every case also with AuthFunc nil in the whole-stream part, and after another connection to the same Server authenticated with u:p"}
 
 	p1 := sh.Part("http-whole-and-truncated", "enum")
 	p1.Alphabet = alphabet
@@ -430,6 +463,9 @@ func c18HTTPEnumerate(sh *evidence.Shard) {
 					if mine() {
 						x.one(p1, &c18Case{Kind: ki, Variant: vi, Body: bi, Trunc: -1, Auth: auth})
 					}
+				}
+				if mine() {
+					x.one(p1, &c18Case{Kind: ki, Variant: vi, Body: bi, Trunc: -1, Auth: true, Warm: true})
 				}
 				if bi != len(c18Bodies)-1 {
 					continue
